@@ -359,6 +359,111 @@ let run_aireval (line : string) : string =
   let all = Array.of_list (eval_nodes env air_nodes) in
   "OK " ^ String.concat "," (List.map (fun r -> s_of_z all.(Big_int_Z.int_of_big_int r)) air_main)
 
+
+(* ---- serde family ------------------------------------------------------------------------------- *)
+let bytes_of_hex (h : string) : Big_int_Z.big_int list =
+  let n = String.length h / 2 in
+  List.init n (fun i -> Big_int_Z.big_int_of_int (int_of_string ("0x" ^ String.sub h (2 * i) 2)))
+let hex_of_bytes (b : Big_int_Z.big_int list) : string =
+  String.concat "" (List.map (fun x -> Printf.sprintf "%02x" (Big_int_Z.int_of_big_int x)) b)
+
+(* splitmix64, the same generator as lib/common.py *)
+type rng = { mutable st : int64 }
+let rng_next r =
+  r.st <- Int64.add r.st 0x9E3779B97F4A7C15L;
+  let z = r.st in
+  let z = Int64.mul (Int64.logxor z (Int64.shift_right_logical z 30)) 0xBF58476D1CE4E5B9L in
+  let z = Int64.mul (Int64.logxor z (Int64.shift_right_logical z 27)) 0x94D049BB133111EBL in
+  Int64.logxor z (Int64.shift_right_logical z 31)
+let below r n = if n <= 0 then 0 else Int64.to_int (Int64.unsigned_rem (rng_next r) (Int64.of_int n))
+let bi = Big_int_Z.big_int_of_int
+let rand_big r (lo : Big_int_Z.big_int) (hi : Big_int_Z.big_int) : Big_int_Z.big_int =
+  (* uniform-ish in [lo, hi] with the ends over-represented *)
+  let span = Big_int_Z.succ_big_int (Big_int_Z.sub_big_int hi lo) in
+  match below r 8 with
+  | 0 -> lo
+  | 1 -> hi
+  | 2 -> Big_int_Z.min_big_int hi (Big_int_Z.add_big_int lo (bi (below r 4)))
+  | _ ->
+    let a = Big_int_Z.big_int_of_string (Printf.sprintf "%Lu" (rng_next r)) in
+    Big_int_Z.add_big_int lo (Big_int_Z.mod_big_int a span)
+
+let rec int_range (s : schema) : Big_int_Z.big_int * Big_int_Z.big_int =
+  let p2 k = Big_int_Z.pred_big_int (Big_int_Z.power_int_positive_int 2 k) in
+  match s with
+  | SU8 -> (bi 0, p2 8) | SU16 -> (bi 0, p2 16) | SU32 -> (bi 0, p2 32) | SU64 -> (bi 0, p2 64)
+  | SFelt -> (bi 0, Big_int_Z.pred_big_int p)
+  | SRange (lo, hi, s') -> let (a, b) = int_range s' in (Big_int_Z.max_big_int lo a, Big_int_Z.min_big_int hi b)
+  | _ -> failwith "int_range: not an integer schema"
+
+let rec gen_schema r (depth : int) (s : schema) : value =
+  match s with
+  | SU8 | SU16 | SU32 | SU64 | SFelt | SRange _ -> let (lo, hi) = int_range s in VN (rand_big r lo hi)
+  | SUnit -> VUnit
+  | SSeq (c, e) ->
+    let (lo, hi) = int_range c in
+    let cap = Big_int_Z.min_big_int hi (Big_int_Z.add_big_int lo (bi (if below r 10 = 0 then 17 else 4))) in
+    let n = Big_int_Z.int_of_big_int (rand_big r lo cap) in
+    VList (List.init n (fun _ -> gen_schema r (depth - 1) e))
+  | SArr (n, e) -> VList (List.init (int_of_nat n) (fun _ -> gen_schema r depth e))
+  | SPair (a, b) -> let x = gen_schema r depth a in let y = gen_schema r depth b in VPair (x, y)
+  | STag tbl ->
+    let rows = if depth <= 0 then List.filter (fun (t, _) -> Big_int_Z.int_of_big_int t < 253) tbl else tbl in
+    let ctl = List.filter (fun (t, _) -> Big_int_Z.int_of_big_int t >= 253) rows in
+    let (t, s') =
+      if ctl <> [] && below r 6 = 0 then List.nth ctl (below r (List.length ctl))
+      else List.nth rows (below r (List.length rows)) in
+    VTag (t, gen_schema r (depth - 1) s')
+  | SVar -> VRec (gen_schema r depth s_node)
+
+let ident r : value =
+  let n = 1 + below r 6 in
+  VList (List.init n (fun i -> VN (bi (if i = 0 then 97 + below r 26 else (match below r 3 with 0 -> 48 + below r 10 | 1 -> 95 | _ -> 97 + below r 26)))))
+let text r : value =
+  VList (List.init (below r 12) (fun _ -> VN (bi (32 + below r 95))))
+let path r : value =
+  (* a::b::c *)
+  let comp () = match ident r with VList l -> l | _ -> [] in
+  let k = 1 + below r 3 in
+  let rec go i = if i = 0 then comp () else comp () @ [VN (bi 58); VN (bi 58)] @ go (i - 1) in
+  VList (go (k - 1))
+let gen_body r depth : value = VList (List.init (below r 6) (fun _ -> gen_schema r depth SVar))
+let gen_proc r depth : value =
+  VPair (ident r, VPair ((if below r 2 = 0 then VList [] else text r),
+    VPair (VN (bi (below r 2)), VPair (VN (bi (below r 5)), gen_body r depth))))
+let gen_imports r : value =
+  let procid () = VList (List.init 20 (fun _ -> VN (bi (below r 256)))) in
+  VPair (VList (List.init (below r 3) (fun _ -> path r)),
+         VList (List.init (below r 3) (fun _ -> VPair (procid (), VPair (ident r, path r)))))
+let gen_prog r depth : value =
+  let body = VPair (VList (List.init (below r 3) (fun _ -> gen_proc r depth)), gen_body r depth) in
+  if below r 3 = 0 then VTag (bi 1, VPair (gen_imports r, body)) else VTag (bi 0, body)
+let gen_mod r depth : value =
+  let procid () = VList (List.init 20 (fun _ -> VN (bi (below r 256)))) in
+  let reexp () = VPair (procid (), VPair (ident r, (if below r 2 = 0 then VList [] else text r))) in
+  let body = VPair (VList (List.init (below r 2) (fun _ -> reexp ())), VList (List.init (1 + below r 3) (fun _ -> gen_proc r depth))) in
+  let docs = if below r 2 = 0 then VList [] else text r in
+  if below r 3 = 0 then VTag (bi 1, VPair (docs, VPair (gen_imports r, body))) else VTag (bi 0, VPair (docs, body))
+
+let run_serde (line : string) : string =
+  match split_ws line with
+  | "dec" :: kind :: rest ->
+    let h = (match rest with [h] -> h | _ -> "") in
+    (match model_decode kind (bytes_of_hex h) with
+     | Some b -> "OK reenc=" ^ hex_of_bytes b
+     | None -> "ERR")
+  | ["gen"; kind; seed; depth] ->
+    let r = { st = Int64.of_string seed } in
+    let d = int_of_string depth in
+    let (s, v) = (match kind with
+      | "prog" -> (s_program, gen_prog r d)
+      | "mod" -> (s_module, gen_mod r d)
+      | "node" -> (s_node, gen_schema r d s_node)
+      | _ -> failwith "gen: unknown kind") in
+    if not (wt s_node s v) then "GEN-ILL-TYPED" else "OK bytes=" ^ hex_of_bytes (ast_encode s v)
+  | ["agree"] -> if tables_agree then "OK agree=1" else "OK agree=0"
+  | _ -> failwith "bad serde case"
+
 let () =
   let family = Sys.argv.(1) in
   let ic = open_in Sys.argv.(2) in
@@ -378,6 +483,7 @@ let () =
               | "batch" -> run_batch line
               | "aireval" -> run_aireval line
               | "astexec" -> run_astexec line
+              | "serde" -> run_serde line
               | _ -> failwith "unknown family")
            with Failure m -> "DRIVER-FAIL " ^ m
               | Stack_overflow -> "DRIVER-FAIL stack overflow" in
